@@ -75,6 +75,9 @@ def execute(desc):
             st = h.stacks[name]
             w.at(0.0, st.app.i_am)
 
+    # the applications' own timers (housekeeping): idle entries of mixed magnitude that shape the scheduler's heap
+    for t_hk in desc.get('housekeeping', []):
+        w.at(t_hk, _noop)
     for op in desc.get('ops', []):
         w.at(op['t'], _do_op, h, op)
     for tf in desc.get('timed', []):
@@ -87,6 +90,10 @@ def execute(desc):
     tm.tasks = []
     core.deferredFns = []
     return h
+
+
+def _noop():
+    pass
 
 
 def _inspect_timers(h, seq):
